@@ -278,6 +278,11 @@ func (p *ParagraphReader) Next() (*Paragraph, error) {
 		lastKey = strings.TrimSpace(els[0])
 		value := strings.TrimSpace(els[1])
 
+		if strings.HasPrefix(lastKey, "#") {
+			/* Written back, this field would be a comment line */
+			return nil, fmt.Errorf("Bad line: field name '%s' starts with '#'", lastKey)
+		}
+
 		if _, found := paragraph.Values[lastKey]; !found {
 			paragraph.Order = append(paragraph.Order, lastKey)
 		}
